@@ -19,7 +19,7 @@ from rv.workloads import integrator_histories as H
 
 ID = 'C02'
 RULE = ('seeded random histories of integrate(chunk)/predict/get_pva/get_time/set_pva over random increments tables '
-        '(20..400 rows, irregular dt), initial buffer capacity 2..64, chunk sizes 0..n aimed at the capacity boundary '
+        '(20..400 rows, irregular dt; class long: 2200..4000 rows with chunks of 1..1500 rows), initial buffer capacity 2..64 (long: up to 10000), chunk sizes 0..n aimed at the capacity boundary '
         '(ending exactly at capacity, one short, one over, > 2x capacity), both altitude modes; a share of the histories '
         'is re-run in a NUMBA_BOUNDSCHECK=1 subprocess; non-trivial = history with more than one integrate call or any '
         'predict/set_pva (the tests use exactly one integrate call); distinct = generator parameters')
@@ -28,7 +28,7 @@ ASSUMPTIONS = ['Euler-angle extraction gives the same bits for an element whatev
 REQUIRED_OBS = ['model_comparisons', 'predict_calls', 'set_pva_calls', 'growth_events', 'empty_chunks', 'kernel_calls',
                 'invariant_evaluations', 'chunks_ending_exactly_at_capacity', 'predict_when_full', 'boundscheck_histories',
                 'index_conservation_checked', 'stale_return_checked']
-REQUIRED_CLASSES = {'all': ['3d', '2d', 'boundscheck']}
+REQUIRED_CLASSES = {'all': ['3d', '2d', 'long', 'boundscheck']}
 STATE = {}
 
 
@@ -46,6 +46,12 @@ def cases(seed, tier):
     for i in range(n):
         out.append(dict(seed=int(seed) * 1000003 + i, cls='3d' if i % 2 == 0 else '2d', with_altitude=i % 2 == 0,
                         initial_size=2 + (i * 7) % 63, n_inc=20 + (i * 37) % 181 if i % 10 else 400, cost=1))
+    # long histories: chunks of a thousand rows and more (a per-call row counter, periodic re-normalisation or any other
+    # "every N rows" logic keyed to the call instead of the trajectory only shows there)
+    nl = 16 if tier == 'quick' else 300
+    for i in range(nl):
+        out.append(dict(seed=int(seed) * 1000003 + 400000 + i, cls='long', with_altitude=i % 2 == 0, initial_size=[64, 1000, 10000, 257][i % 4],
+                        n_inc=2200 + 450 * (i % 5), long=True, cost=40))
     for b in range(nb):
         out.append(dict(seed=int(seed) * 1000003 + 500000 + b * per, cls='boundscheck', count=per, cost=per * 1.5))
     return out
